@@ -153,7 +153,7 @@ def make_state(kind, L, which, seed):
     prod = PRODUCT_STATES[kind](L)[which[1]]
     mask = sector_mask(site, L, prod)
     if which[0] == 'prod':
-        psi = MPS.from_product_state([site] * L, prod, bc='finite', unit_cell_width=1)
+        psi = MPS.from_product_state([site] * L, prod, bc='finite', permute=False, unit_cell_width=1)
     else:
         rng = np.random.default_rng([seed, L, which[1], KINDS.index(kind)])
         vec = np.where(mask, rng.standard_normal(len(mask)) + 1j * rng.standard_normal(len(mask)), 0.0)
